@@ -11,6 +11,7 @@ Driver for C18.  Request lines (link text: crossings `T:a,b,c,d` joined by `;`, 
   B <strands> <word>  closure of a braid word (`e` = empty word) as a PD code relabelled by first appearance
   C <link>            components only (partially resolved diagrams)
   A <crossing>        `Crossing::arcs`
+  MR <link>           `Link::mirror` (link text)
 
 Canonical forms (same code on the harness side): a circle is rotated so that its least label comes first and
 then read in the direction with the smaller second label; an arc is the smaller of the sequence and its reverse;
@@ -179,6 +180,16 @@ def arcsStr (c : Crossing) : String :=
   let a := c.arcs
   compsStr [a.1, a.2]
 
+def ctypeStr : CType → String
+  | .X => "X"
+  | .Xm => "Xm"
+  | .V => "V"
+  | .H => "H"
+
+def linkStr (l : Link) : String :=
+  if l.isEmpty then "e" else
+    String.intercalate ";" (l.map (fun c => s!"{ctypeStr c.ctype}:{c.e0},{c.e1},{c.e2},{c.e3}"))
+
 def handle (t : List String) : String :=
   let r : Option String :=
     match t with
@@ -200,6 +211,7 @@ def handle (t : List String) : String :=
         | .ok cs => some s!"{compsStr cs}|ck={if checkComps l cs then 1 else 0}"
         | _ => some "panic"
     | ["A", s] => do let c ← parseCrossing? s; some (arcsStr c)
+    | ["MR", s] => do let l ← parseLink? s; some (linkStr (mirror l))
     | _ => none
   r.getD "bad-request"
 
